@@ -487,6 +487,41 @@ def alt_env_family(seed, n, maxlen=2, budget=3000):
     return out
 
 
+def posb(id, vt="int"):
+    """a positional item as a branch of a choice"""
+    return {"kind": "pos", "id": id, "vt": vt, "arity": "one", "strict": "any", "help": f"HELP-{id}", "metavar": f"MV{id.upper()}",
+            "hidden": False, "shorts": [], "longs": [], "env": "", "guard": False, "catch": False, "lchars": [], "completer": [],
+            "letters": [], "adj": False}
+
+
+def alt_pos_family(seed, n, maxlen=3, budget=4000):
+    """choices between named branches and a positional item (`[--all | ID] [NAME]...`): the word goes to the
+    choice only when it wins, otherwise on to the positionals that follow"""
+    rnd = random.Random(seed)
+    out = []
+    wraps = ["one", "opt", "many", "some"]
+    named_pool = [lambda i: branch(rf(f"b{i}", "one", f"--all{i}")),
+                  lambda i: branch(ar(f"b{i}", "one", "int", f"--num{i}")),
+                  lambda i: branch(rf(f"b{i}", "one", f"--on{i}"), ar(f"c{i}", "opt", "str", f"--with{i}")),
+                  lambda i: branch(ar(f"b{i}", "fallback", "int", f"--fb{i}"))]
+    while len(out) < n:
+        i = len(out)
+        nb = rnd.choice([1, 1, 2])
+        branches = [named_pool[rnd.randrange(len(named_pool))](j) for j in range(nb)]
+        pb = branch(posb("pb", ["int", "str"][i % 2]))
+        branches = branches + [pb] if i % 3 else [pb] + branches
+        g = altf("g0", wraps[i % 4], *branches)
+        others = [sw("o1", "-v")] if rnd.random() < 0.5 else []
+        tail = [NOTAIL, postail(pos("p0", "many")), postail(pos("p0", "opt")), postail(pos("p0", "one", vt="int"))][(i // 2) % 4]
+        d = mkdef(f"altpos{seed}_{i}", level(others + [g], tail), maxlen=maxlen, extras=rnd.choice([("dd",), ("unk",), ()]),
+                  spells=("eq",), words=("1", "x"))
+        galpha_trim(d, budget)
+        if len(d["alpha"]["words"]) == 1:
+            d["alpha"]["words"] = ["1", "x"]
+        out.append(d)
+    return out
+
+
 def acmd_hole_defs(seed):
     """an adjacent subcommand between an option declared before it and one declared after it: the
     earlier option consumes its item first and leaves a hole in the command's window"""
@@ -532,7 +567,7 @@ def field_leaves(f):
     if f["kind"] in ("switch", "reqflag", "arg"):
         return [f]
     if f["kind"] == "alt":
-        return [l for b in f["branches"] for l in b["fields"]]
+        return [l for b in f["branches"] for l in b["fields"] if l["kind"] != "pos"]
     if f["kind"] in ("seq",):
         return list(f["fields"])
     head = [] if f["head"]["kind"] == "cmd" else [f["head"]]
